@@ -263,6 +263,7 @@ def _case(args):
         if refs[ti] is None:
             continue
         toks = seqs[ti]
+        resume_ = rng.random() < 0.5
         def run_to_end(obj, imm):
             try:
                 if imm:
@@ -274,6 +275,8 @@ def _case(args):
                     if not hasattr(r_, 'result'):
                         return ['feed_eof() on an immutable parser returned %s, not a new parser' % type(r_).__name__]
                     return ['ok', canon(r_.result)]
+                if resume_:
+                    return ['ok', canon(obj.resume_parse())]       # pulls the rest through the parser state's own lexer
                 obj.exhaust_lexer()
                 return ['ok', canon(obj.feed_eof())]
             except UnexpectedToken as e:
@@ -337,6 +340,14 @@ def run(ctx, res):
     for f in ctx['known']:
         if f['id'] == 'F10' and f['status'] == 'fixed':
             replay_f10(f, res)
+        if f['id'] == 'F34' and f['status'] == 'fixed':
+            from lark import Lark
+            w = f['witness']
+            p_ = Lark(w['grammar'], parser='lalr')
+            ip_ = p_.parse_interactive(w['text']); fork_ = ip_.copy()
+            a_, b_ = fork_.resume_parse(), ip_.resume_parse()
+            if a_ != b_ or a_ != p_.parse(w['text']):
+                res.violation('regression of fixed finding F34: ' + f['what'], {'grammar': w['grammar'], 'text': w['text'], 'history': w['history'], 'fork': str(a_), 'original': str(b_)})
     rng = random.Random(ctx['seed'] * 1000003 + 13)
     N = tier_scale(ctx['tier'], 4000, 40000) * (3 if ctx['deepen'] else 1)
     import lalrlib
